@@ -2,7 +2,7 @@
 SPECIFICATION GenSpec
 CONSTANTS
   Ns = {3}
-  Kinds = {"cancel", "deadline", "background"}
+  Kinds = {"cancel", "deadline", "derived", "background"}
   Bug = {}
 INVARIANT EmitTrace
 CHECK_DEADLOCK FALSE
